@@ -36,7 +36,7 @@ struct St1;
 #[derive(Event, Serialize, Deserialize, Clone)]
 struct St2;
 
-pub const MENU_LEN: usize = 22;
+pub const MENU_LEN: usize = 26;
 
 /// Applies menu item `i`; returns what the hasher must have been fed: (kind, priority, type name).
 fn apply(app: &mut App, i: usize) -> (u8, u64, &'static str) {
@@ -66,6 +66,11 @@ fn apply(app: &mut App, i: usize) -> (u8, u64, &'static str) {
         19 => { app.make_event_independent::<S2>(); (6, 0, type_name::<S2>()) }
         20 => { app.make_trigger_independent::<St1>(); (7, 0, type_name::<St1>()) }
         21 => { app.make_trigger_independent::<St2>(); (7, 0, type_name::<St2>()) }
+        // one type registered both as an event and as a trigger: which of the two is independent matters
+        22 => { app.add_server_trigger::<S1>(Channel::Ordered); (5, 0, type_name::<S1>()) }
+        23 => { app.make_trigger_independent::<S1>(); (7, 0, type_name::<S1>()) }
+        24 => { app.add_server_event::<St1>(Channel::Ordered); (4, 0, type_name::<St1>()) }
+        25 => { app.make_event_independent::<St1>(); (6, 0, type_name::<St1>()) }
         _ => panic!("menu index"),
     }
 }
@@ -171,6 +176,7 @@ fn rand_seq(rng: &mut Rng) -> Vec<usize> {
         // events may be registered once; independence needs the registration first
         if i >= 11 && s.contains(&i) { continue; }
         if (18..=21).contains(&i) && !s.contains(&(i - 4)) { s.push(i - 4); }
+        if (i == 23 || i == 25) && !s.contains(&(i - 1)) { s.push(i - 1); }
         s.push(i);
     }
     s
@@ -200,14 +206,32 @@ pub fn generate(opts: &Opts, out: &mut Out) {
     let mut rng = Rng::new(opts.seed ^ 0xC14);
     let n = if opts.thorough { 20_000 } else { 1_200 };
     for _ in 0..n {
-        let a = rand_seq(&mut rng);
-        let b = edit(&mut rng, &a);
+        let mut a = rand_seq(&mut rng);
+        let mut b = edit(&mut rng, &a);
+        if rng.chance(1, 10) {
+            // the same registrations, a type that is both an event and a trigger, and a different one of
+            // the two marked independent
+            let (ev, tr, ie, it) = if rng.chance(1, 2) { (14, 22, 18, 23) } else { (24, 16, 25, 20) };
+            a.retain(|x| ![ie, it].contains(x));
+            for r in [ev, tr] { if !a.contains(&r) { a.push(r); } }
+            b = a.clone();
+            a.push(ie);
+            b.push(it);
+        }
         exec(&format!("c14pair a={} b={}", s(&a), s(&b)), out);
     }
     let n = if opts.thorough { 6_000 } else { 400 };
     for k in 0..n {
-        let a = rand_seq(&mut rng);
-        let b = if k % 3 == 0 { a.clone() } else { edit(&mut rng, &a) };
+        let mut a = rand_seq(&mut rng);
+        let mut b = if k % 3 == 0 { a.clone() } else { edit(&mut rng, &a) };
+        if k % 3 != 0 && rng.chance(1, 8) {
+            let (ev, tr, ie, it) = if rng.chance(1, 2) { (14, 22, 18, 23) } else { (24, 16, 25, 20) };
+            a.retain(|x| ![ie, it].contains(x));
+            for r in [ev, tr] { if !a.contains(&r) { a.push(r); } }
+            b = a.clone();
+            a.push(ie);
+            b.push(it);
+        }
         exec(&format!("c14hs a={} b={}", s(&a), s(&b)), out);
     }
 }
